@@ -28,7 +28,7 @@ RULE = (
     "pending ._cfgNNNN_ updates, the package image the incoming file; MergeEngine.install/replace/uninstall with merge/unmerge + "
     "ConfigProtectInstall/ConfigProtectUninstall runs sanity_check..final; the parent compares the resulting tree and "
     "get_merged_cset() with the statement for every file that an independent reference predicate says is protected "
-    "(under a listed CONFIG_PROTECT dir, not under a MASK dir, not matched by COLLISION_IGNORE) and differs. A class is "
+    "(under a listed CONFIG_PROTECT dir, not under a MASK dir, not matched by COLLISION_IGNORE) and differs. History cases run a first operation under env.d state E1 in the same process on the same root path, rewrite the existing env.d file in place to E2 (nothing added to or removed from etc/env.d) and judge the second operation with E2 (class hist/<transition>/<outcome>). A class is "
     "(operation, offset kind, per-file observed outcome); distinct_nontrivial counts classes observed."
 )
 ASSUMPTIONS = [
@@ -38,11 +38,12 @@ ASSUMPTIONS = [
     "Excl: CONFIG_PROTECT/MASK entries are directories (file entries are arguable); COLLISION_IGNORE globs are chosen so that anchoring at the start of the path makes no difference (pkgcore uses an unanchored search: '/x' also ignores '/y/x')",
     "Excl: more than 9999 pending updates, non-regular files, names '.keep*' (built-in ignores)",
     "Excl: when several pending updates are identical to the incoming file any of their numbers may be reused",
+    "histories have depth 2 and change CONFIG_PROTECT / CONFIG_PROTECT_MASK in env.d only (COLLISION_IGNORE and the configured extra_protects stay fixed); the first operation is executed but not judged again (it is a member of the one-operation space); replay rebuilds the whole history in a fresh process",
     "all '/'-offset cases of one task share one forked child (fork is very expensive on the host) which wipes its chroot between cases; every engine/trigger/package object is created per case and a single-case replay must reproduce the batch verdict (checked by the runner)",
 ]
 BOUNDS = {
-    "quick": "3.4k executions (3,438), a covering selection of the thorough product (all 9 paths everywhere). install at '/': all 12 CONFIG_PROTECT x MASK combinations without COLLISION_IGNORE x 7 existing/pending states, plus 12 COLLISION_IGNORE configurations (4 spellings x 2-4 CONFIG_PROTECT/MASK pairs) and 4 extra_protects/extra_disables configurations x 4 deciding states; install at a non-'/' offset: 12 x 4 + 6 x 3 states; uninstall: 16 configurations x {absent,} unmodified, modified x 2 offsets; replace: 8 configurations x {identical, differing, differing+pending, differing+dropped unmodified, differing+dropped modified} x 2 offsets",
-    "thorough": "318k executions. install: 280 configurations (5 x 4 x 7 x {env.d, extra}) x 9 paths x 4 existing x 9 pending states x 2 offsets; + junk/decoy ._cfg names; + two-file packages (same directory, two protected directories; 25 state pairs); replace over all configurations x 8 states x 3 dropped-file states; uninstall x 4 live states",
+    "quick": "3,966 executions (3,726 one-operation cases + 240 depth-2 histories); the one-operation cases are a covering selection of the thorough product (all 9 paths everywhere). install at '/': all 12 CONFIG_PROTECT x MASK combinations without COLLISION_IGNORE x 7 existing/pending states, plus 12 COLLISION_IGNORE configurations (4 spellings x 2-4 CONFIG_PROTECT/MASK pairs) and 4 extra_protects/extra_disables configurations x 4 deciding states; install at a non-'/' offset: 12 x 4 + 6 x 3 states; uninstall: 16 configurations x {absent,} unmodified, modified x 2 offsets; replace: 8 configurations x {identical, differing, differing+pending, differing+dropped unmodified, differing+dropped modified} x 2 offsets; depth-2 histories on one root in one process: 4 env.d transitions (add/remove a CONFIG_PROTECT dir, add/remove a MASK dir, file rewritten in place) x first operation {install, uninstall, replace} x 2 offsets x 10 second operations (install/uninstall/replace on the affected path and on a control path) = 240",
+    "thorough": "318k executions. install: 280 configurations (5 x 4 x 7 x {env.d, extra}) x 9 paths x 4 existing x 9 pending states x 2 offsets; + junk/decoy ._cfg names; + two-file packages (same directory, two protected directories; 25 state pairs); replace over all configurations x 8 states x 3 dropped-file states; uninstall x 4 live states; depth-2 histories: 10 env.d transitions x 3 first operations x 2 offsets x 17 second operations = 1020",
 }
 TIME_CAP = {"thorough": 840}
 
@@ -186,11 +187,13 @@ def _write(path, text):
 
 def _build_tree(case, root, aux):
     """root: directory that is the offset (or '/' in the chroot); aux: where image/tmp/CONTENTS go."""
-    os.makedirs(os.path.join(root, "etc/env.d"))
+    os.makedirs(os.path.join(root, "etc/env.d"), exist_ok="hist" in case)
     for d in IGNORE_DIRS:
         os.makedirs(root.rstrip("/") + d, exist_ok=True)
     txt = envd_text(case)
-    if txt:
+    if txt or "hist" in case or case.get("hist1"):
+        # histories: the file exists from step 1 on and is rewritten IN PLACE (open(..., "w") on the same inode; nothing
+        # is added to or removed from etc/env.d, so the directory's own mtime does not move)
         _write(os.path.join(root, "etc/env.d/50verif"), txt)
     for p, content in pre_state(case).items():
         _write(root.rstrip("/") + p, content)
@@ -272,7 +275,49 @@ def _tripwire_install(hits):
     sys.addaudithook(hook)
 
 
+def hist_step1(case):
+    """The first operation of a depth-2 history: same root, same process, env.d state E1 = case['hist']."""
+    h = case["hist"]
+    c = {"op": h["op"], "mode": case["mode"], "src": case["src"], "protect": h["protect"], "mask": h["mask"], "ignore": case["ignore"], "igdecl": case["igdecl"], "hist1": True}
+    if h["op"] == "install":
+        c["files"] = [{"p": "/etc/h1", "ex": "A", "pend": []}]
+    elif h["op"] == "replace":
+        c["files"] = [{"p": "/etc/h1", "ex": "I", "pend": []}]
+    else:
+        c["ufiles"] = [{"p": "/etc/h1", "live": "R"}]
+    return c
+
+
+def _wipe_keep_envd(root, aux):
+    """Between the two operations of a history: drop everything except <root>/etc/env.d and the file in it."""
+    for name in os.listdir(root):
+        if name == "etc":
+            for n2 in os.listdir(os.path.join(root, "etc")):
+                if n2 != "env.d":
+                    q = os.path.join(root, "etc", n2)
+                    shutil.rmtree(q) if os.path.isdir(q) and not os.path.islink(q) else os.unlink(q)
+        elif not (aux != root and os.path.join(root, name) == aux):
+            q = os.path.join(root, name)
+            shutil.rmtree(q) if os.path.isdir(q) and not os.path.islink(q) else os.unlink(q)
+    if aux != root:
+        for name in AUX:
+            shutil.rmtree(os.path.join(aux, name), ignore_errors=True)
+
+
 def _run_case(case, root, aux, offset):
+    """One case on the real code.  A history case (key "hist") first runs operation 1 under env.d state E1 in the same
+    process on the same root path, rewrites the env.d file in place to the case's own (E2) settings and then runs the
+    case's operation; only that second operation is observed and judged (with E2)."""
+    if "hist" in case:
+        first = _run_op(hist_step1(case), root, aux, offset)
+        _wipe_keep_envd(root, aux)
+        res = _run_op(case, root, aux, offset)
+        res["hist1_exc"] = first["exc"]
+        return res
+    return _run_op(case, root, aux, offset)
+
+
+def _run_op(case, root, aux, offset):
     """Build the pre-state and drive the real engine once. root == '/' inside the chroot."""
     from pkgcore.ebuild import triggers as et
     from pkgcore.fs import livefs
@@ -454,7 +499,7 @@ def judge(case, res):
     classes = []
     pre = pre_state(case)
     fs = res["fs"]
-    tag = f"{case['op']}/{case['mode']}"
+    tag = f"{case['op']}/{case['mode']}" if "hist" not in case else f"hist/{case['hist']['t']}"
     exc = res["exc"]
     if exc:
         classes.append(f"{tag}/raised-in-{res['phase']}")
@@ -649,13 +694,59 @@ def quick_cases():
     return out
 
 
+# depth-2 histories: (transition name, (CONFIG_PROTECT, MASK) before, after, affected path).  "after" is what the case
+# itself carries and is judged with; the control path /etc/vq is protected before and after.
+TRANSITIONS = [
+    ("add-protect", ("/etc", None), ("/etc /opt/c", None), "/opt/c/vq"),
+    ("remove-mask", ("/etc", "/etc/m"), ("/etc", None), "/etc/m/vq"),
+    ("remove-protect", ("/etc /opt/c", None), ("/etc", None), "/opt/c/vq"),
+    ("add-mask", ("/etc", None), ("/etc", "/etc/m"), "/etc/m/vq"),
+]
+TRANSITIONS_THOROUGH = TRANSITIONS + [
+    ("add-protect", (None, None), ("/opt/c/", None), "/opt/c/vq"),
+    ("add-protect", ("/opt/c/", "/etc/m"), ("/etc /opt/c", "/etc/m"), "/etc/sub/vq"),
+    ("remove-mask", ("/etc /opt/c", "/etc/m /opt/c/m"), ("/etc /opt/c", "/etc/m"), "/opt/c/m/vq"),
+    ("remove-mask", ("/etc", "/etc/m/"), ("/etc", None), "/etc/m/vq"),
+    ("remove-protect", ("/etc /opt/c", "/etc/m"), ("/opt/c/", "/etc/m"), "/etc/vq"),
+    ("add-mask", ("/etc /opt/c", "/etc/m"), ("/etc /opt/c", "/etc/m /opt/c/m"), "/opt/c/m/vq"),
+]
+
+
+def hist_cases(tier):
+    """op1 in {install, uninstall, replace} under E1; in-place rewrite of the env.d file to E2; op2 judged with E2."""
+    out = []
+    q = tier == "quick"
+    for t, (p1, m1), (p2, m2), path in TRANSITIONS if q else TRANSITIONS_THOROUGH:
+        for op1 in ("install", "uninstall", "replace"):
+            for mode in ("root", "offset"):
+                cfg = dict(_cfg(p2, m2), mode=mode, hist={"t": t, "op": op1, "protect": p1, "mask": m1})
+                control = "/etc/vq" if path != "/etc/vq" else "/opt/c/vq"
+                inst = [(path, "D", []), (path, "D", [[0, "D"]]), (path, "I", []), (control, "D", [])]
+                unin = [(path, "D"), (path, "R"), (control, "D")]
+                repl = [(path, "D", None), (path, "D", "D"), (control, "D", None)]
+                if not q:
+                    inst += [(path, "D", [[0, "I"]]), (path, "A", []), (control, "I", [])]
+                    unin += [(control, "R"), (path, "A")]
+                    repl += [(path, "I", "D"), (control, "D", "D")]
+                for p, ex, pend in inst:
+                    out.append(dict(cfg, op="install", files=[{"p": p, "ex": ex, "pend": pend}]))
+                for p, live in unin:
+                    out.append(dict(cfg, op="uninstall", ufiles=[{"p": p, "live": live}]))
+                for p, ex, dropped in repl:
+                    c = dict(cfg, op="replace", files=[{"p": p, "ex": ex, "pend": []}])
+                    if dropped:
+                        c["ufiles"] = [{"p": p.rsplit("/", 1)[0] + "/vqdropped", "live": dropped}]
+                    out.append(c)
+    return out
+
+
 def predicted_classes(cases):
     """Outcome classes a correct implementation (which, like pkgcore, always also protects /etc) produces for the
     given cases - used to compare case selections without executing them; work() measures the real ones."""
     out = set()
     for case in cases:
         pre = pre_state(case)
-        tag = f"{case['op']}/{case['mode']}"
+        tag = f"{case['op']}/{case['mode']}" if "hist" not in case else f"hist/{case['hist']['t']}"
         over = dict(case, protect=((case["protect"] or "") + " /etc").strip())
         for f in case.get("files", ()):
             p, old, new = f["p"], pre.get(f["p"]), CONTENT["N"]
@@ -686,7 +777,7 @@ def predicted_classes(cases):
 def all_cases(tier):
     """The fixed, ordered case list (simplest first)."""
     if tier == "quick":
-        return quick_cases()
+        return quick_cases() + hist_cases("quick")
     out = []
     cfgs = configs(tier)
     cfgs_envd = configs(tier, ("envd",))
@@ -736,6 +827,8 @@ def all_cases(tier):
                 for pa, pb in pairs:
                     for (ea, pea), (eb, peb) in itertools.product(st2, st2):
                         out.append(dict(cfg, op="install", mode=mode, files=[{"p": pa, "ex": ea, "pend": pea}, {"p": pb, "ex": eb, "pend": peb}]))
+    # 6. depth-2 histories on one root in one process
+    out += hist_cases("thorough")
     return out
 
 
